@@ -43,6 +43,16 @@ type OthersClause struct {
 	C    *Clause
 }
 
+// AppendsClause: a closure that appends exactly one element to a captured slice per invocation
+// (sequence-accumulating closure): `appends <elemvar> :: <slice expr> :: <fact about the parameters and elemvar>`
+type AppendsClause struct {
+	Var      string
+	SliceSrc string
+	FactSrc  string
+	Props    []string
+	Line     int
+}
+
 type Let struct {
 	Name string
 	E    Expr
@@ -82,6 +92,7 @@ type Contract struct {
 	Returns   []*Clause // closures: functional postconditions (may mention parameters and result only)
 	Each      []*Clause // accumulating closures: fact established for the key (first argument) of this invocation
 	Others    []*OthersClause // accumulating closures: what holds for every key other than this invocation's
+	Appends   []*AppendsClause
 	CbArgs    *Clause   // callees: what every callback invocation's arguments (a0, a1) satisfy
 	Decreases *Clause
 	Flags     map[string]bool // inline, trusted, wraps, nocheck
@@ -261,6 +272,19 @@ func loadContracts(path string) (*ContractFile, error) {
 			}
 			d.E = e
 			cur.Defines = append(cur.Defines, d)
+		case "appends":
+			parts := strings.SplitN(rest, "::", 3)
+			if len(parts) != 3 {
+				return nil, fmt.Errorf("contracts:%d: bad appends clause", ln)
+			}
+			fsrc, props := splitProps(strings.TrimSpace(parts[2]))
+			if props == nil {
+				props = cur.Props
+			}
+			if _, err := parseSpec(fsrc); err != nil {
+				return nil, fmt.Errorf("contracts:%d: %v", ln, err)
+			}
+			cur.Appends = append(cur.Appends, &AppendsClause{Var: strings.TrimSpace(parts[0]), SliceSrc: strings.TrimSpace(parts[1]), FactSrc: fsrc, Props: props, Line: ln})
 		case "others":
 			// others <var> <type> :: <expr>
 			m := regexp.MustCompile(`^([A-Za-z_][A-Za-z0-9_]*)\s+([a-z0-9]+)\s*::\s*(.*)$`).FindStringSubmatch(rest)
